@@ -328,6 +328,56 @@ class Interp:
             val |= by[off + b] << (8 * b)
         return mk_const(ty['bits'], val)
 
+    def load_cstr(self, st, p, o, inst, key):
+        """byte load from an object known to hold a NUL-terminated string of
+        length n = o.info['cstr_len'] (terminator at offset n): the byte is
+        non-zero before n and zero at n; when the position is not decided the
+        state is split (off < n | off == n [| off > n when the object is larger])"""
+        n = o.info['cstr_len']
+        self.check_access(st, p, 1, inst, 'load')
+        if st.bottom:
+            return []
+        # a cell written explicitly wins
+        if p.off.is_const() and (p.obj, p.off.c, 1) in st.mem:
+            st.env[key] = st.mem[(p.obj, p.off.c, 1)]
+            return [st]
+        out = []
+
+        def nonzero(s):
+            mk = ('cstrbyte', p.obj, p.off.key())
+            v = s.conv.get(mk)
+            if v is None:
+                b = s.fresh_int(8, False, 'ch')
+                s.cons.add_le(1, b.u)
+                v = b
+                s.conv[mk] = v
+            s.env[key] = v
+            return s
+        if st.cons.entails_lt(p.off, n):
+            return [nonzero(st)]
+        if st.cons.entails_eq(p.off, n):
+            st.env[key] = mk_const(8, 0)
+            return [st]
+        if st.cons.entails_lt(n, p.off):
+            st.env[key] = self.top_of_type(st, inst.ty, 'past')
+            return [st]
+        s1 = st.fork()
+        s1.cons.add_lt(p.off, n)
+        if not self.infeasible(s1, p.off, n):
+            out.append(nonzero(s1))
+        s2 = st.fork()
+        s2.cons.add_eq(p.off, n)
+        if not self.infeasible(s2, p.off, n):
+            s2.env[key] = mk_const(8, 0)
+            out.append(s2)
+        if not st.cons.entails_le(p.off, n):
+            s3 = st
+            s3.cons.add_lt(n, p.off)
+            if not self.infeasible(s3, p.off, n):
+                s3.env[key] = self.top_of_type(s3, inst.ty, 'past')
+                out.append(s3)
+        return out
+
     def initial_content(self, st, p, ty, inst):
         o = st.objs.get(p.obj)
         if o is not None:
@@ -385,6 +435,17 @@ class Interp:
             vo = st.objs.get(v.obj)
             if vo is not None and vo.kind == 'alloca':
                 vo.info['escaped'] = True
+        if o is not None and o.info.get('cstr_len') is not None:
+            n_ = o.info['cstr_len']
+            keeps = isinstance(v, IntVal) and size == 1 and st.cons.entails_lt(p.off, n_) and \
+                v.u is not None and st.cons.entails_le(1, v.u)
+            if not keeps:
+                # the string may be cut or extended: forget its length (object-level fact, so the
+                # descriptor is replaced for this state only)
+                o2 = Obj(o.id, o.kind, o.size, dict(o.info))
+                o2.info['cstr_len'] = None
+                st.objs = dict(st.objs)
+                st.objs[o.id] = o2
         if p.off.is_const():
             c = p.off.c
             for k in [k for k in st.mem if k[0] == p.obj and k[1] < c + size and c < k[1] + k[2]]:
@@ -415,6 +476,11 @@ class Interp:
         if o is not None and o.kind == 'unknown':
             self.havoc_escaped(st)
             return
+        if o is not None and o.info.get('cstr_len') is not None:
+            o2 = Obj(o.id, o.kind, o.size, dict(o.info))
+            o2.info['cstr_len'] = None
+            st.objs = dict(st.objs)
+            st.objs[o.id] = o2
         for k in [k for k in st.mem if k[0] == p.obj]:
             _, off, sz = k
             if st.cons.entails_le(p.off + n, off) or st.cons.entails_le(off + sz, p.off):
@@ -1264,6 +1330,10 @@ class Interp:
             return [st]
         if op == 'load':
             p = self.val(st, i.ops[0], fn)
+            if isinstance(p, PtrVal) and p.obj is not None and i.ty.get('bits') == 8:
+                o = st.objs.get(p.obj)
+                if o is not None and o.info.get('cstr_len') is not None:
+                    return self.load_cstr(st, p, o, i, key)
             env[key] = self.load(st, p, i.ty, i)
             return [st]
         if op == 'store':
